@@ -603,6 +603,11 @@ func (g *Graph) BoolPhiDNF(phi *ssa.Phi, ctx *Ctx, want bool) []FactSet {
 // of full() == false, "limit off" or "below the limit"), or the outcome of a short-circuit
 // boolean (a || b, a && b held in a variable) every alternative of which does.
 func (g *Graph) GuardEdges(match func(t *Term, pol bool) bool) []*Node {
+	// a loop-carried boolean ("done := false; for … { if cond { done = true } }; if done") reaches
+	// itself again through the loop: by induction on the path such an alternative adds nothing
+	// (the value was already established earlier), so a phi met again while it is being examined
+	// counts as established; the constant alternatives are the base cases
+	visiting := map[*ssa.Phi]bool{}
 	var entails func(t *Term, pol bool, ctx *Ctx, depth int) bool
 	entails = func(t *Term, pol bool, ctx *Ctx, depth int) bool {
 		if match(t, pol) {
@@ -634,6 +639,11 @@ func (g *Graph) GuardEdges(match func(t *Term, pol bool) bool) []*Node {
 			return true
 		}
 		if phi, ok := nt.V.(*ssa.Phi); ok && nt.Op == "phi" {
+			if visiting[phi] {
+				return true
+			}
+			visiting[phi] = true
+			defer delete(visiting, phi)
 			return allAlts(g.BoolPhiDNF(phi, nt.Ctx, npol))
 		}
 		if nt.Op != "call" {
@@ -658,6 +668,6 @@ func (g *Graph) GuardEdges(match func(t *Term, pol bool) bool) []*Node {
 		return allAlts(g.P.RejectDNF(callee, cctx, 0, 2))
 	}
 	return g.Select(EdgeWhere(func(t *Term, pol bool, n *Node) bool {
-		return entails(t, pol, n.Ctx, 3)
+		return entails(t, pol, n.Ctx, 5)
 	}))
 }
